@@ -124,6 +124,15 @@ func runC08(c *Ctx) error {
 			}
 		}
 	}
+	// (a1) a ghost that names an existing, readable source: still header-only, still only in rpm
+	for _, tg := range tags {
+		e := wire.Content{Src: filepath.Join(tree.Root, "etc/app.conf"), Dst: "/var/lib/app/state.db", Type: "ghost", Packager: tg}
+		s := &PkgSpec{Raw: []wire.Content{{Src: filepath.Join(tree.Root, "bin/tool"), Dst: "/usr/bin/plain"}, e}, Umask: 0o022, MTime: 1700000000,
+			Describe: map[string]any{"matrix": "ghost-with-a-readable-source/" + tg}}
+		for _, f := range Formats {
+			typingCase(c, fam, s, f)
+		}
+	}
 	// (a'') configuration files whose names are not plain words: the registration (conffiles line, backup line, file
 	// flag) names the path as the archive names it – no quoting of another file's syntax
 	for _, ty := range []string{"config", "config|noreplace", "config|missingok"} {
